@@ -20,6 +20,7 @@ const (
 	flContinue
 	flReturn
 	flPanic
+	flExit // the process exits (os.Exit): no deferred call runs, no postcondition applies
 )
 
 type outcome struct {
@@ -54,7 +55,7 @@ func (fx *FnCtx) exec(st *State, s ast.Stmt) []outcome {
 		if _, isBlock := s.(*ast.BlockStmt); !isBlock {
 			key := fx.stmtText(s)
 			for _, c := range fx.fc.StmtAsserts[key] {
-				goal := fx.specBool(fx.env(st), c.Expr)
+				goal := fx.specBool(fx.envAt(st, s.Pos()), c.Expr)
 				fx.emit(st, "at:assert["+c.Label+"]", "stmt-assert", c.Tags, goal, c.Src, fx.pos(s))
 				st.assume(goal)
 				fx.stmtAssertHit[c] = true
@@ -629,7 +630,7 @@ func (fx *FnCtx) loopClauses(s ast.Stmt) (int, []*Clause) {
 
 // checkInvariants emits obligations for the invariant clauses (phase = init/preserve).
 func (fx *FnCtx) checkInvariants(st *State, ord int, cls []*Clause, phase string, at ast.Node) {
-	env := fx.env(st)
+	env := fx.envAt(st, loopScopePos(at))
 	for _, c := range cls {
 		if c.Kind != "invariant" {
 			continue
@@ -639,8 +640,8 @@ func (fx *FnCtx) checkInvariants(st *State, ord int, cls []*Clause, phase string
 	}
 }
 
-func (fx *FnCtx) assumeInvariants(st *State, cls []*Clause) {
-	env := fx.env(st)
+func (fx *FnCtx) assumeInvariants(st *State, cls []*Clause, at ast.Node) {
+	env := fx.envAt(st, loopScopePos(at))
 	for _, c := range cls {
 		if c.Kind == "invariant" {
 			st.assume(fx.specBool(env, c.Expr))
@@ -648,10 +649,10 @@ func (fx *FnCtx) assumeInvariants(st *State, cls []*Clause) {
 	}
 }
 
-func (fx *FnCtx) decreasesVal(st *State, cls []*Clause) (string, *Clause) {
+func (fx *FnCtx) decreasesVal(st *State, cls []*Clause, at ast.Node) (string, *Clause) {
 	for _, c := range cls {
 		if c.Kind == "decreases" {
-			return fx.evalSpec(fx.env(st), c.Expr).T, c
+			return fx.evalSpec(fx.envAt(st, loopScopePos(at)), c.Expr).T, c
 		}
 	}
 	return "", nil
@@ -666,7 +667,7 @@ func (fx *FnCtx) runLoop(st *State, s ast.Stmt, body *ast.BlockStmt, extra []ast
 	fx.checkInvariants(st, ord, cls, "init", s)
 	// 2. havoc
 	fx.havocForLoop(st, body, extra, ord)
-	fx.assumeInvariants(st, cls)
+	fx.assumeInvariants(st, cls, s)
 	var res []outcome
 	// 3. exit path (guard false)
 	g := guard(st.clone()) // evaluate on a clone first to learn if constant
@@ -684,7 +685,7 @@ func (fx *FnCtx) runLoop(st *State, s ast.Stmt, body *ast.BlockStmt, extra []ast
 		b.assume(gb)
 	}
 	b.trace = append(b.trace, fmt.Sprintf("loop#%d body", ord))
-	d0, dc := fx.decreasesVal(b, cls)
+	d0, dc := fx.decreasesVal(b, cls, s)
 	if bind != nil {
 		bind(b)
 	}
@@ -700,7 +701,7 @@ func (fx *FnCtx) runLoop(st *State, s ast.Stmt, body *ast.BlockStmt, extra []ast
 			}
 			fx.checkInvariants(o.st, ord, cls, "preserve", s)
 			if dc != nil {
-				d1 := fx.evalSpec(fx.env(o.st), dc.Expr).T
+				d1 := fx.evalSpec(fx.envAt(o.st, loopScopePos(s)), dc.Expr).T
 				fx.emit(o.st, fmt.Sprintf("loop#%d:decreases", ord), "decreases", dc.Tags, "(and (< "+d1+" "+d0+") (>= "+d1+" 0))", dc.Src, fx.pos(s))
 			}
 		case flBreak:
@@ -824,7 +825,7 @@ func (fx *FnCtx) runLoopWithHidden(st *State, x *ast.RangeStmt, hidden *types.Va
 	st.named[idxName] = st.vars[hidden]
 	st.named["idx"] = st.vars[hidden]
 	st.facts = append(st.facts, "(<= 0 "+c+")", "(<= "+c+" "+bound+")")
-	fx.assumeInvariants(st, cls)
+	fx.assumeInvariants(st, cls, x)
 	var res []outcome
 	ex := st.clone()
 	ex.assume("(not " + guard(ex) + ")")
@@ -833,7 +834,7 @@ func (fx *FnCtx) runLoopWithHidden(st *State, x *ast.RangeStmt, hidden *types.Va
 	b := st
 	b.assume(guard(b))
 	b.trace = append(b.trace, fmt.Sprintf("loop#%d body", ord))
-	d0, dc := fx.decreasesVal(b, cls)
+	d0, dc := fx.decreasesVal(b, cls, x)
 	bind(b)
 	outs := fx.exec(b, x.Body)
 	for _, o := range outs {
@@ -842,7 +843,7 @@ func (fx *FnCtx) runLoopWithHidden(st *State, x *ast.RangeStmt, hidden *types.Va
 			post(o.st)
 			fx.checkInvariants(o.st, ord, cls, "preserve", x)
 			if dc != nil {
-				d1 := fx.evalSpec(fx.env(o.st), dc.Expr).T
+				d1 := fx.evalSpec(fx.envAt(o.st, loopScopePos(x)), dc.Expr).T
 				fx.emit(o.st, fmt.Sprintf("loop#%d:decreases", ord), "decreases", dc.Tags, "(and (< "+d1+" "+d0+") (>= "+d1+" 0))", dc.Src, fx.pos(x))
 			}
 		case flBreak:
@@ -878,7 +879,7 @@ func (fx *FnCtx) execRangeMap(st *State, x *ast.RangeStmt, m Val, mt *types.Map)
 	st.named["visited"] = st.named[visName]
 	// visited ⊆ dom0
 	st.facts = append(st.facts, "(forall ((k "+ks+")) (! (=> (select "+vis+" k) (select "+d0+" k)) :pattern ((select "+vis+" k))))")
-	fx.assumeInvariants(st, cls)
+	fx.assumeInvariants(st, cls, x)
 	var res []outcome
 	// exit: visited == dom0
 	ex := st.clone()
@@ -959,6 +960,8 @@ func (fx *FnCtx) runDefers(st *State) []*State {
 			switch o.fl {
 			case flNormal, flReturn, flPanic:
 				next = append(next, o.st)
+			case flExit:
+				// the process exits inside the deferred closure: the path ends here
 			default:
 				fx.fail("break/continue out of deferred closure")
 			}
@@ -969,6 +972,9 @@ func (fx *FnCtx) runDefers(st *State) []*State {
 		st.panicking = false
 		outs := fx.applyCall(st, d.callee, d.recv, d.args, d.call)
 		for _, o := range outs {
+			if o.fl == flExit {
+				continue
+			}
 			if !o.st.panicking && was {
 				o.st.panicking, o.st.panicVal = was, pv
 			}
